@@ -21,6 +21,10 @@ THEOREMS = [
     "C14.multi_manager_ctl_meets_spec",
     "C14.multi_manager_ctl_meets_spec_unique_ids",
     "C14.multi_ctl_first_column",
+    "C14.multi_manager_clear_meets_spec",
+    "C14.multi_manager_clear_meets_spec_unique_ids",
+    "C14.clear_is_unregister_all",
+    "C14.multiObsTraceX_no_clear",
     "C14.eviction_hypothesis_needed",
     "C14.no_duplicates_needs_unique_ids",
 ]
@@ -48,6 +52,24 @@ RULE = ("cases = corpus + every 2+2 configuration over ts in {0,2} x key in {0,1
         "back in the middle of a run, away while traffic goes on, gone for good, with tracking watermarks): a join registered "
         "again starts empty and each of its lives is checked against the reference join of what arrived during that life, it "
         "must stay silent while away, the other joins must not notice. "
+        "+ UNUSUAL BUT LEGAL JOIN KEYS (key numbers >= 100 = entries of a table of 64 pairwise distinct strings in confusable "
+        "clusters + 8 very long keys): the EMPTY string, blank / tab / newline / NBSP / zero-width / NUL keys, `key0` with "
+        "leading / trailing blank, other case, padding, proper prefix; numeric look-alikes 1 / 01 / 1.0 / +1 / 1e0 / non-ASCII "
+        "digits, 0 / -0 / 0.0 / 00, 7 / 007 / 7.0 next to key-less events whose field holds Integer(7); the stream names, key "
+        "field names, None / null / -; separators _ : , ; / | and id_ts look-alikes; case pairs with non-ASCII folding and NFC / "
+        "NFD forms (e-acute, Kelvin sign, sharp s, dotted / dotless i, fi ligature, ohm sign); keys of 4 KiB .. 64 KiB differing "
+        "in the last / first character or proper prefixes of each other: every 2+2 configuration over ts {0,2} x key {\"\", key0, "
+        "none} containing the empty key with ALL merges, N/3 random configurations over one cluster each with ALL merges and "
+        "the three watermark variants, N/12 long histories, N/40 very-long-key configurations, N/24 multi-join / unregister-"
+        "register configurations over a cluster. Two different table entries must never join, equal ones must. "
+        "+ N/6 configurations with clear() ON A LIVE MANAGER FOLLOWED BY NORMAL USE (6 merges each, thorough 18): clear + all joins "
+        "registered again (registration order, reversed, shuffled) before the first event (once or twice), back to back mid-run, "
+        "joins coming back one by one with traffic in between (some never), after one join was already unregistered, cleared for "
+        "good, with tracking watermarks; the multi-join manager is built with StreamJoinManager::default(), the single-join one "
+        "with new(). "
+        "+ every fifth case of ALL families once more with STATISTICS PROBES `S` between the calls (get_stats on the node, "
+        "get_join_stats + get_all_stats on the manager): they add no call to the observation and must not disturb the join; the "
+        "twins must agree with each other and report exactly the registered joins (else `stats-inconsistent`). "
         "KEY FIELDS: the left key extractor reads data[k], the right one data[rk] (two different closures); half of the random "
         "configurations (a third of the long / large-timestamp ones) put decoy values under the field only the OTHER side's "
         "extractor reads (own key, another key, an unused key; also on key-less events) - the decoy must not matter. "
@@ -76,6 +98,11 @@ ASSUMPTIONS = [
     "calls, other joins unaffected; hypothesis WFC: ids unique per consumed stream within each life - implied by the driver's "
     "whole-history id check, multi_manager_ctl_meets_spec_unique_ids; alternation is not needed for the theorem, only for the "
     "model's faithfulness); "
+    "clear(): modelled as XOp.clear (every join's node dropped), specified by Spec.multiOkX (clear ends the current life of every "
+    "join) and PROVED of the model (multi_manager_clear_meets_spec, clear_is_unregister_all); after clear() any join may be "
+    "registered again in any order; "
+    "join keys: the model compares opaque key numbers; the harness maps numbers to strings injectively (asserted at start-up), "
+    "so equal numbers <=> equal extracted key strings; key-less = the extractor returns None (field absent or not a String); "
     "stream names are arbitrary and may be shared between joins in any roles",
     "the window is duration.as_secs() in timestamp units - the code's own convention (DESIGN section 8)",
     "inner join with JoinStrategy::TimeWindow only; outer-join emission and Count/Session strategies are outside the model",
@@ -84,6 +111,10 @@ ASSUMPTIONS = [
 
 
 def classify(case, impl, model, oracle, kind):
+    if "stats-inconsistent" in (impl or ""):
+        # a statistics probe `S` found get_join_stats / get_all_stats disagreeing with each other or with the set of
+        # registered joins (e.g. a node that survives clear())
+        return "stats-inconsistent"
     if kind == "oracle":
         return "oracle:" + oracle.split("@")[0].replace("fail ", "")
     return "diff"
@@ -102,7 +133,9 @@ LEVEL_TEXT = ("Lean 4 theorems (kernel-checked, unbounded: every window, every j
               "specification against that join's own reference join. multi_manager_ctl_meets_spec: the same with "
               "unregister_join / register_join(same id, fresh node) calls anywhere in the history - every life of every join "
               "(registration to next unregistration) meets the specification against the reference join of what arrived during "
-              "that life, a join that is away and every control call deliver nothing, other joins do not notice.")
+              "that life, a join that is away and every control call deliver nothing, other joins do not notice. "
+              "multi_manager_clear_meets_spec: the same with clear() calls anywhere (clear ends the current life of every join; "
+              "for each join it is exactly its own unregister_join: clear_is_unregister_all).")
 LEVEL_NOTE = ("Trusted: Lean kernel + {propext, Classical.choice, Quot.sound}; hand-written model tied to the code by differential "
               "testing only; harness/driver glue; outer joins and Count/Session windows not modelled.")
 DESIGN_REF = "§6 C14"
